@@ -14,14 +14,14 @@ RULE = ("session scripts of 2-3 concurrent connections (handshake, enableBLOB Ne
         "traffic; 8-12 steps; 5 hand-written scripts, thorough adds 40 generated ones) on real connection handlers driven through fake streams (TCP: ConnectionHandler.handler(router) on a "
         "StreamReader + FakeWriter; TTY: ConnectionHandler.handle() on a fake stdin/stdout; mixed) x fault in {EOF, read error, EOF "
         "inside a message, junk then EOF, exception while one of its messages is handled, write+drain error on the peer followed by a "
-        "reset, cancellation of the serving task} injected at EVERY step index; for TCP victims also while the peer has stopped reading and a send to it is parked in drain(). Monitors after the fault and after every later step: Router.clients, "
+        "reset, cancellation of the serving task} injected at EVERY step index; for TCP victims also while the peer has stopped reading and a send to it is parked in drain(), and while ANOTHER connection has a backlog of parked and queued sends. Monitors after the fault and after every later step: Router.clients, "
         "Router.blob_routing, ConnectionHandler.connections, writer.closed, writes after close, calls of message_from_device on the "
         "ended handler, and the marker sequence each surviving connection received versus a reference policy model; a reconnecting "
         "peer must start from default settings. non-trivial = every (script, fault, position, transport mix); distinct = hash of it")
 ASSUMPTIONS = ["the handler-exception fault is raised by a failpoint device (a driver now contains its own errors, C12)",
                "a write error on the peer is followed by a reset of its read side, as on a real socket"]
 REQUIRED_EVENTS = ["sessions", "faults_injected", "ended_connections_checked", "survivor_traffic_checks", "reconnects_checked",
-                   "tcp_faults", "tty_faults", "faults_with_a_send_parked_on_a_stalled_peer"]
+                   "tcp_faults", "tty_faults", "faults_with_a_send_parked_on_a_stalled_peer", "faults_while_a_survivor_has_a_backlog"]
 EXHAUSTIVE_NOTE = "every fault kind at every step index of every script, for each transport mix of the tier"
 
 QUICK_SHARDS = 4
@@ -266,6 +266,24 @@ async def session(ctx, case):
             c = conns[victim]
             ctx.count("faults_injected")
             ctx.count(f"{c.kind}_faults")
+            slow = None
+            if case.get("backlog"):
+                # ANOTHER connection has a backlog (its peer reads slowly: one send parked in drain(), the next ones queued behind
+                # it) at the moment the victim's connection ends; when its peer catches up it must still get everything
+                others = [i for i in sorted(live) if i != victim and i < len(conns) and conns[i].kind == "tcp" and policy[i] != "Only"]
+                if others:
+                    slow = conns[others[0]]
+                    slow.link.s_writer.flow = lambda: True
+                    for _ in range(2):
+                        marker[0] += 1
+                        m = f"MARK{marker[0]}"
+                        for i in live:
+                            if i != victim and policy[i] != "Only":
+                                expected[i].append(m)
+                        if not publish(lambda m=m: setattr(D.element_of(drv, "g", "t", "e0"), "value", m), "with a slow survivor"):
+                            return
+                        await sess.quiesce()
+                    ctx.count("faults_while_a_survivor_has_a_backlog")
             if case.get("stalled") and c.kind == "tcp":
                 # the peer has stopped READING: a send to it is parked in drain() when its connection ends
                 c.link.s_writer.flow = lambda: True
@@ -293,6 +311,9 @@ async def session(ctx, case):
                 await sess.quiesce()
             c.ended = True
             live.discard(victim)
+            if slow is not None:
+                slow.link.s_writer.flow = slow.link.s2c._flow
+                await sess.quiesce()
             if not await check_ended(c, victim, f"after {fault} at step {idx}"):
                 return
             if not survivors_ok(f"after {fault} at step {idx}"):
@@ -365,7 +386,7 @@ async def session(ctx, case):
 
 def one_case(ctx, case):
     asyncio.run(session(ctx, case))
-    ctx.case((case["script"], tuple(case["mix"]), case["fault"], case["pos"], case["victim"], bool(case.get("stalled"))), nontrivial=True,
+    ctx.case((case["script"], tuple(case["mix"]), case["fault"], case["pos"], case["victim"], bool(case.get("stalled")), bool(case.get("backlog"))), nontrivial=True,
              sample={"script": SCRIPTS[case["script"]][1][:6], "mix": case["mix"], "fault": case["fault"], "position": case["pos"], "victim": case["victim"]})
 
 
@@ -404,6 +425,8 @@ def run(ctx):
                         if not ctx.mine(i):
                             continue
                         one_case(ctx, {"script": si, "mix": list(mix), "fault": fault, "pos": pos, "victim": victim})
+                        if fault in ("eof", "read-error", "handler-exception", "task-cancelled") and pos % 3 == 2:
+                            one_case(ctx, {"script": si, "mix": list(mix), "fault": fault, "pos": pos, "victim": victim, "backlog": True})
                         if mix[victim] == "tcp" and fault != "write-error" and pos % 2 == 1:
                             one_case(ctx, {"script": si, "mix": list(mix), "fault": fault, "pos": pos, "victim": victim, "stalled": True})
                         if ctx.enough():
